@@ -39,7 +39,7 @@ ExtraObjs == {T3, T2F, LI, I2, Obj("str", "ab"), Cont("list", <<I1, I0, I2>>), C
               Cont("list", <<P1>>), Cont("list", <<P1, P0>>), Cont("tuple", <<P1, P0>>), Cont("set", <<I1, I0>>),
               Cont("dict", <<KV(SA, Cont("list", <<I1>>))>>), Cont("dict", <<KV(SA, I1), KV(SB, I0)>>),
               Cont("list", <<SA, SB>>), Cont("list", <<NONE, I1>>), Cont("tuple", <<SA, I1, I0>>)}
-ArgObjs == Objects \cup ExtraObjs
+ArgObjs == Objects \cup ExtraObjs \cup TDObjs
 
 \* declared parameter types
 TIS == SeqT("tuple", <<One(Typed("int")), One(Typed("str"))>>)
@@ -54,7 +54,9 @@ ParamTypes ==
      Generic("dict", <<Typed("str"), Typed("int")>>), Generic("Sequence", <<Typed("int")>>),
      Union(<<TIS, Known(NONE)>>), Generic("list", <<TIS>>), Generic("tuple", <<TIS>>),
      Generic("dict", <<Typed("str"), Generic("list", <<Typed("int")>>)>>), Generic("set", <<Typed("int")>>),
-     Generic("list", <<Union(<<Typed("int"), Known(NONE)>>)>>), Generic("Iterable", <<Typed("str")>>)}
+     Generic("list", <<Union(<<Typed("int"), Known(NONE)>>)>>), Generic("Iterable", <<Typed("str")>>),
+     \* TypedDicts with a NotRequired key
+     TD(<<EntX("a", FALSE, FALSE, Typed("int")), Ent("b", TRUE, Typed("str"))>>), TD(<<EntX("a", FALSE, FALSE, Typed("int"))>>)}
 
 (***************************************************************************)
 (* Catalogues.  *X: tokens that do not mention y; *Y: tokens that do (the   *)
@@ -71,6 +73,13 @@ ExprsX ==
      "x.get('a')", "x.get('a', None)", "x.get('a', 0)", "{'k': x}['k']", "{'k': x}.get('k')", "{'k': x}.get('z')",
      "list(x.keys())", "list(x.values())", "list(x.items())", "dict(x)", "x.copy()", "{**x}", "{**x, 'z': 1}",
      "d['k']", "d.get('k')", "d.get('j', x)", "dict(d)", "len(d)", "list(d)",
+     \* dicts with a key that may be absent (DictIncompleteValue pairs that are not required: ** of a conditional dict,
+     \* of a TypedDict with a NotRequired key, setdefault / update on d), then iterated / unpacked / measured
+     "{**({'a': 1} if x else {})}", "{**({'a': 1} if x else {}), 'b': x}", "tuple({**({'a': 1} if x else {}), 'b': x})",
+     "[*{**({'a': x} if x else {})}]", "list({**({'a': 1} if x else {})})", "len({**({'a': 1} if x else {}), 'b': 2})",
+     "sorted({**({'a': 1} if x else {}), 'b': 2})", "(*{**({'b': 1} if x else {}), 'a': x},)",
+     "tuple(d)", "[*d]", "(*d,)", "sorted(d)", "set(d)", "{**d}", "[*{**d}]", "tuple(v)", "[*v]", "list(v)", "len(v)",
+     "tuple({**x})", "[*{**x}]", "len({**x})", "list({**x, 'z': 1})", "len(tuple({**x}))", "[k for k in {**x}]",
      \* the mutated list
      "m[0]", "m[-1]", "len(m)", "list(m)", "tuple(m)", "m + [x]", "[*m]", "m[0:1]",
      \* builtins with impl functions or generic typeshed signatures
@@ -142,7 +151,7 @@ PatternsX ==
 PatternsY == {"int() if y", "a if y is None", "_ if isinstance(y, int)", "(a, b) if a == y", "_ if x == y"}
 
 UnpackTargets == {"a, b", "a, *rest", "(a, b), c", "[a, b]", "a, b, c", "*rest, a", "a, (b, *rest)", "v, x", "a, *rest, b"}
-UnpackExprsX == {"x", "x[0]", "(x, 1)", "[x, None]", "tolist(x)", "pair(x, 1)", "swap(x)", "x[0:2]", "(*x, 1)", "list(x)", "tuple(x)",
+UnpackExprsX == {"{**({'a': 1} if x else {}), 'b': 2}", "d", "{**x}", "x", "x[0]", "(x, 1)", "[x, None]", "tolist(x)", "pair(x, 1)", "swap(x)", "x[0:2]", "(*x, 1)", "list(x)", "tuple(x)",
                  "x.split()", "first(x)", "(x, (1, 'a'))", "[*x]", "(x or (1, 2))", "list(x.items())", "(x, x)", "x[1:]", "sorted(x)",
                  "divmod(x, 2)", "(1, *x)", "Pt(x, 1).both()", "(a, b)", "rest", "m", "(b, a)", "x.popitem()"}
 UnpackExprsY == {"(x, y)", "pair(x, y)", "(x, *y)", "(*x, y)", "x + y", "swap(pair(x, y))", "[x, y]", "(y, x)", "(x if x else y)",
@@ -154,11 +163,12 @@ AugExprsY == {"y", "[y]", "(y,)", "(x, y)"}
 MutLinesX == {"m.append(x)", "m.append(1)", "m.extend(x)", "m.append(None)", "m += [x]", "m.extend([x, 1])",
               "d['k'] = x", "d['j'] = 1", "d.setdefault('k', x)", "d.update({'z': x})", "d.pop('k', None)", "d['k'] = [x]",
               "d.update(k=x)", "del d['k']", "m.append((x, 1))", "m.append([x])", "d['k'] = None",
+              "d.update({'a': 1} if x else {})", "d.setdefault('a', 1)",
               \* mutators without an impl function (class unmodelled-container-mutator)
               "m.insert(0, x)", "m[0] = x", "m.clear()"}
 MutLinesY == {"m.append(y)", "d['j'] = y", "d.setdefault('j', y)", "m.extend([x, y])", "d.update({'k': x, 'j': y})", "m += [y]"}
 ForTargets == {"e", "a, b", "a, *rest", "(a, b), c", "e, a"}
-ForItersX == {"x", "(x, 1)", "(1, 'a')", "v", "x[0:1]", "[x]", "range(2)", "tolist(x)", "enumerate(x)", "x.items()", "x.values()",
+ForItersX == {"{**({'a': 1} if x else {}), 'b': 2}", "{**x}", "{**d}", "x", "(x, 1)", "(1, 'a')", "v", "x[0:1]", "[x]", "range(2)", "tolist(x)", "enumerate(x)", "x.items()", "x.values()",
               "reversed(x)", "sorted(x)", "m", "d", "(x, None)", "[(x, 1)]", "rest", "x[0]", "x.keys()", "d.items()", "list(x)",
               "[(1, 'a'), (2, 'b')]", "((x, 1), (x, 'a'))", "x.split()"}
 ForItersY == {"y", "(x, y)", "zip(x, y)", "[x, y]", "((x, y),)", "[(x, y), (y, x)]", "x + y", "(*x, y)"}
@@ -318,7 +328,11 @@ SetToSeq(S) == IF S = {} THEN << >> ELSE LET xx == CHOOSE yy \in S : TRUE IN <<x
 RECURSIVE EqSafe(_)
 EqSafe(o) == /\ o # FLT1 /\ o.c # "bool"
              /\ \A i \in 1..Len(o.items) : IF o.c = "dict" THEN EqSafe(o.items[i].key) /\ EqSafe(o.items[i].val) ELSE EqSafe(o.items[i])
-ArgsFor(T) == SetToSeq({o \in ArgObjs : Member(o, T) /\ (EqSafe(o) \/ (o.c = "bool" /\ T = Typed("bool")))})
+\* TypedDict parameters receive dicts with declared keys only (a TypedDict type is structurally open, Values!Member, but
+\* {**td} / iteration over td are typed by the declared keys, as every checker does)
+DeclaredKeysOnly(o, T) == T.k = "typeddict" => \A kk \in DictKeys(o) : \E i \in 1..Len(T.items) : kk.v = T.items[i].key
+ArgsFor(T) == SetToSeq({o \in ArgObjs : Member(o, T) /\ DeclaredKeysOnly(o, T)
+                                         /\ (EqSafe(o) \/ (o.c = "bool" /\ T = Typed("bool")))})
 
 \* (a constant: TLC evaluates it once)
 ArgsTable == [T \in ParamTypes |-> ArgsFor(T)]
@@ -365,7 +379,6 @@ KeyLoop == "loop-carried-growth-not-at-fixpoint"
 KeyTupleAdd == "tuple-add-drops-left-operand"
 KeyCrossEq == "cross-type-equality"
 KeyRejected == "value-of-rejected-expression"
-KeyMatchLeaves == "exhaustive-match-leaves-block"
 KeyUnmodelled == "unmodelled-container-mutator"
 KeyMutLost == "mutation-lost-on-exception-path"
 KeyAbsTruthy == "abstract-type-assumed-truthy"
@@ -378,13 +391,18 @@ HasManyT(T) ==
       [] T.k = "union" -> \E i \in 1..Len(T.ms) : HasManyT(T.ms[i])
       [] OTHER -> FALSE
 
+RECURSIVE HasVariadicTuple(_)
+HasVariadicTuple(T) ==
+    CASE T.k = "seq" -> \E i \in 1..Len(T.ms) : HasVariadicTuple(T.ms[i].t)
+      [] T.k = "generic" -> (T.c = "tuple" /\ Len(T.args) = 1) \/ \E i \in 1..Len(T.args) : HasVariadicTuple(T.args[i])
+      [] T.k = "union" -> \E i \in 1..Len(T.ms) : HasVariadicTuple(T.ms[i])
+      [] OTHER -> FALSE
 RECURSIVE HasShapedTuple(_)
 HasShapedTuple(T) ==
     CASE T.k = "seq" -> T.c = "tuple" \/ \E i \in 1..Len(T.ms) : HasShapedTuple(T.ms[i].t)
       [] T.k = "generic" -> \E i \in 1..Len(T.args) : HasShapedTuple(T.args[i])
       [] T.k = "union" -> \E i \in 1..Len(T.ms) : HasShapedTuple(T.ms[i])
       [] OTHER -> FALSE
-KeyBreakSupp == "loop-jump-in-suppressing-with"
 KeyGuardCapture == "capture-kept-after-failed-guard"
 
 \* ---- (e) in-place mutators of list / dict / set that have no impl function: the inferred type of the container stays
@@ -425,6 +443,21 @@ KeyWhileElse == "loop-else-assignment-seen-in-loop"
 \* narrowing a test / assert inside the loop applies to it is all the checker knows about it: the node is typed with
 \* the narrowed value of the previous pass although the first iteration reads the un-narrowed element
 KeyLoopComposite == "composite-narrowing-carried-around-loop"
+\* ---- (k) dict.__setitem__ / setdefault / update on a receiver whose inferred type is a UNION of dict values (one branch
+\* added a key): _add_pairs_to_dict (implementation.py:1131) hands the union to _update_incomplete_dict, which starts a
+\* new dict from the added pairs alone: `d = {}` / `if x: d['a'] = 1` / `d['j'] = 1` reveals {'j': 1}
+KeyDictUnion == "dict-mutation-on-union-forgets-keys"
+Dev_DictUnionMutation(cls, via, recvinf) == cls = "dict" /\ via \in {"[]=", ".setdefault", ".update"} /\ recvinf.k = "union"
+KeyDictTD == "plain-dict-accepted-for-typeddict"
+RECURSIVE HasTypedDict(_)
+HasTypedDict(T) ==
+    CASE T.k = "typeddict" -> TRUE
+      [] T.k = "seq" -> \E i \in 1..Len(T.ms) : HasTypedDict(T.ms[i].t)
+      [] T.k = "generic" -> \E i \in 1..Len(T.args) : HasTypedDict(T.args[i])
+      [] T.k = "union" -> \E i \in 1..Len(T.ms) : HasTypedDict(T.ms[i])
+      [] OTHER -> FALSE
+\* ---- domain: the program mutated a container through an alias (observed by identity), which the property excludes
+KeyAlias == "mutated-through-alias"
 \* ---- domain: a value that came out of an expression typed Any (gradual typing: an Any argument does not take part in
 \* solving a type variable, so min(<Any>, y) is typed like y)
 KeyAny == "flows-from-any"
